@@ -85,6 +85,7 @@ class PathCtx(object):
         self.twin_needed = twin_needed  # set of labels still lacking a sat twin, or None=all
         self.defs = 0
         self.decided = {}
+        self.portfolio = {}
         self.deferred = {}
         self.facts = {}
         self._const_cache = {}
@@ -336,14 +337,16 @@ class PathCtx(object):
                 self.activate_for(twin)
             self.solver.push()
             self.solver.add(z3.Not(prop))
+            self.solver.set("timeout", int(min(self.query_timeout_ms, 3000)))
             r = self._check()
+            self.solver.set("timeout", int(self.query_timeout_ms))
             if r == z3.sat:
                 status = "sat"
                 model = self.model_values(self.solver.model())
             elif r == z3.unsat:
                 status = "unsat"
             else:
-                status = "unknown"
+                status, model = self._portfolio(z3.Not(prop))
             self.solver.pop()
         twin_status = None
         if twin is not None and (self.twin_needed is None or label in self.twin_needed):
@@ -362,6 +365,57 @@ class PathCtx(object):
         ob = Obligation(label, status, time.time() - t, model, twin_status, detail)
         self.obligations.append(ob)
         return ob
+
+    def _portfolio(self, negated):
+        """The incremental solver gave up: retry the same query (a) on a fresh,
+        non-incremental z3 solver, which enables tactics that push/pop disables,
+        and (b) on the z3 4.8.12 binary.  `unsat` from either decides the
+        obligation; `sat` counts only with a model from the in-process solver."""
+        import subprocess
+        import tempfile
+        import os
+        t = time.time()
+        fresh = z3.Solver()
+        fresh.set("timeout", int(self.query_timeout_ms))
+        fresh.add(self.solver.assertions())
+        self.queries += 1
+        try:
+            r = fresh.check()
+        except z3.Z3Exception:
+            r = z3.unknown
+        self.solver_time += time.time() - t
+        if r == z3.unsat:
+            self.portfolio["fresh-z3:unsat"] = self.portfolio.get("fresh-z3:unsat", 0) + 1
+            return "unsat", None
+        if r == z3.sat:
+            self.portfolio["fresh-z3:sat"] = self.portfolio.get("fresh-z3:sat", 0) + 1
+            return "sat", self.model_values(fresh.model())
+        binary = "/usr/bin/z3"
+        if os.path.exists(binary):
+            t = time.time()
+            fd, path = tempfile.mkstemp(suffix=".smt2", prefix="symx-")
+            try:
+                with os.fdopen(fd, "w") as f:
+                    f.write(fresh.to_smt2())
+                secs = max(5, int(self.query_timeout_ms / 1000 * 2))
+                try:
+                    out = subprocess.run([binary, "-T:%d" % secs, path], capture_output=True, text=True,
+                                         timeout=secs + 5).stdout
+                except subprocess.TimeoutExpired:
+                    out = ""
+            finally:
+                try:
+                    os.unlink(path)
+                except OSError:
+                    pass
+            self.queries += 1
+            self.solver_time += time.time() - t
+            first = out.strip().splitlines()[0].strip() if out.strip() else ""
+            if "(error" not in out and first == "unsat":
+                self.portfolio["z3-4.8.12:unsat"] = self.portfolio.get("z3-4.8.12:unsat", 0) + 1
+                return "unsat", None
+        self.portfolio["unknown"] = self.portfolio.get("unknown", 0) + 1
+        return "unknown", None
 
     def final_model(self):
         """Model of the whole path including every deferred definition (needed
